@@ -17,7 +17,8 @@ PROP = [('InverseMatcher returned','C01'),('RequireMatcher.skip_to_quality','C05
  ('DisjunctionMax.normalize()','C15'),('split_ranges() produced','C13'),('exclusive bound at the edge','C13'),
  ('Decimal values with fewer digits','C13'),('required prefix is longer','C19'),('was not idempotent for three','C15'),('sortable float NUMERIC','C08'),('doc_field_length() returned None','C06'),
  ('sortable DATETIME column','C08'),('CompressedBytesColumn had no default','C08'),('MultiReader.column_reader()','C08'),
- ('in-memory codec recorded empty','C18'),('add_document() that raised part-way','C08')]
+ ('in-memory codec recorded empty','C18'),('add_document() that raised part-way','C08'),('plain-text codec could not write','C10'),
+ ('inlinelimit > 1) raised AttributeError','C10'),('inlinelimit > 1) broke term vectors','C10')]
 log = subprocess.check_output(['git','-C','/repo','log','--reverse','--format=%h|%s','173ed2e..HEAD']).decode().strip().split('\n')
 p = '/verif/known_findings.json'
 d = json.load(open(p))
